@@ -6,7 +6,7 @@
    in the separately named corollary at the end, the only statement here that depends on
    the standard library's axioms for the reals. *)
 From Coq Require Import Qabs.
-From CNV Require Import Base.Prelude Base.Str Gen.CallDefaults Model.Call Spec.Call Proofs.CallNum Proofs.Call.
+From CNV Require Import Base.Prelude Base.Str Gen.CallDefaults Model.Call Spec.Call Proofs.CallNum Proofs.Call Gen.FnCall Proofs.FnCall.
 
 Local Open Scope Q_scope.
 
@@ -128,3 +128,22 @@ Corollary C01_real_corollary_log2_inversion :
     (0 < p)%R -> (0 < r)%R -> (0 < (p * n + (1 - p) * x) / r)%R ->
     ((r * RealFacts.exp2 (RealFacts.log2 ((p * n + (1 - p) * x) / r)) - x * (1 - p)) / p = n)%R.
 Proof. exact RealFacts.log2_inversion. Qed.
+
+(* ---- source tie: the bodies of cnvlib/call.py's scalar functions, translated from the
+   Python source on every run (Gen/FnCall.v, tools/py2v_fn.py), ARE the model functions
+   the theorems above speak about. *)
+Theorem C01_source_abs_clonal :
+  forall (exp2 : Q -> Q) v r x p, 0 < p -> p < 1 ->
+    fn_log2_ratio_to_absolute exp2 v r x (Some p) == abs_clonal (exp2 v) r x p.
+Proof. exact fn_abs_clonal_eq. Qed.
+
+Theorem C01_source_abs_pure :
+  forall (exp2 : Q -> Q) v r x,
+    fn_log2_ratio_to_absolute exp2 v r x None == abs_pure (exp2 v) r /\
+    (forall p, 1 <= p -> fn_log2_ratio_to_absolute exp2 v r x (Some p) == abs_pure (exp2 v) r) /\
+    fn_log2_ratio_to_absolute_pure exp2 v r == abs_pure (exp2 v) r.
+Proof. exact fn_abs_pure_all. Qed.
+
+Theorem C01_source_ref_pure :
+  forall chrom k hapx, fn_reference_copies_pure chrom k hapx = ref_pure chrom k hapx.
+Proof. exact fn_ref_pure_eq. Qed.
